@@ -3,6 +3,7 @@
 # Copyright (c) 2015-2020 ODC Contributors
 # SPDX-License-Identifier: Apache-2.0
 import threading
+from numbers import Integral
 import warnings
 from typing import (
     TYPE_CHECKING,
@@ -116,6 +117,9 @@ class CRS:
 
         :raises: :py:class:`pyproj.exceptions.CRSError`
         """
+
+        if isinstance(crs_spec, Integral):
+            crs_spec = int(crs_spec)  # numpy integers
 
         if isinstance(crs_spec, (str, int, _CRS)):
             self._crs, self._str, self._epsg = _make_crs(crs_spec)
